@@ -61,7 +61,7 @@ class C20(Check):
         for K in (2, 3):
             for env in (None, '1'):
                 cfgs.append(Config('task_fault_K%d_env%s' % (K, env), self.task_fault, {'K': K, 'env': env, 'limmax': 3},
-                                   split=3, witness_every=5))
+                                   split=3, witness_every=37))
         cfgs.append(Config('phase_fault', self.phase_fault, {'K': 2, 'limmax': 3}, split=3, witness_every=5))
         cfgs.append(Config('donor_shortage', self.donor_shortage, {}))
         cfgs.append(Config('wrong_input', self.wrong_input, {}))
